@@ -336,7 +336,7 @@ def write_evidence(prop, tier, seed, cov, wall, violations, assumptions):
         "wall_s": round(wall, 2), "violations": violations,
     }
     d = OUT / "evidence"
-    d.mkdir(exist_ok=True)
+    d.mkdir(parents=True, exist_ok=True)
     (d / f"{prop.ID}.json").write_text(
         json.dumps(ev, indent=1, allow_nan=False, default=_default) + "\n")
 
